@@ -2,74 +2,90 @@
 (***************************************************************************)
 (* C17: the charset of a MidiFile is in force only for the duration of its *)
 (* load or save call.  `charset' is the process-wide setting used by every *)
-(* meta text encode / decode; a call sets it on entry and must restore it  *)
-(* on every exit - normal or exceptional.  Scoped = FALSE reproduces the   *)
-(* original context manager without try/finally.                           *)
+(* meta text encode / decode; a call sets it on entry and must restore, on *)
+(* every exit - normal or exceptional - what it found.  Scoped = FALSE     *)
+(* reproduces the original context manager without try/finally.            *)
 (*                                                                         *)
 (* A call processes NItems events; a fault of some kind may strike at      *)
 (* event k (0 = before the first event: header / unknown charset).         *)
+(* Calls nest (a track that is a generator, or a file object, may itself   *)
+(* load or save another file while the outer call is between two events):  *)
+(* `stack' holds one frame per call in progress, innermost last.  An       *)
+(* exception of a nested call is caught by the code that made the nested   *)
+(* call and does not reach the outer call.                                 *)
 (***************************************************************************)
 EXTENDS Integers, Sequences, TLC
 
-CONSTANTS Scoped, NItems, MaxCalls
+CONSTANTS Scoped, NItems, MaxCalls, MaxDepth, Charsets
 
-Charsets == {"latin1", "utf-8", "cp1252", "shift_jis", "utf-16", "utf-16-le", "iso2022_jp"}
+AllCharsets == {"latin1", "utf-8", "cp1252", "shift_jis", "utf-16", "utf-16-le", "iso2022_jp"}
+FewCharsets == {"latin1", "utf-8", "shift_jis"}
 LoadFaults == {"truncate", "bad_data_byte", "undecodable_text", "unknown_charset"}
 SaveFaults == {"non_integer_time", "unencodable_text", "unknown_charset", "realtime_message"}
 
-VARIABLES charset, saved, pc, call, hist
-vars == <<charset, saved, pc, call, hist>>
+VARIABLES charset, stack, hist, ncalls
+vars == <<charset, stack, hist, ncalls>>
 
-NoCall == [kind |-> "", cs |-> "", fault |-> "", at |-> 0]
+Frame(kind, cs, fault, at, old) ==
+  [kind |-> kind, cs |-> cs, fault |-> fault, at |-> at, pc |-> 0, saved |-> old]
+Top == stack[Len(stack)]
+Depth == Len(stack)
+Pop == SubSeq(stack, 1, Len(stack) - 1)
 
-Init == charset = "latin1" /\ saved = <<>> /\ pc = 0 /\ call = NoCall /\ hist = <<>>
+Init == charset = "latin1" /\ stack = <<>> /\ hist = <<>> /\ ncalls = 0
 
-\* entry of MidiFile._load / _save: with meta_charset(self.charset)
+\* the innermost call is about to fail (its next step is Fail)
+Failing(f) == f.fault # "none" /\ ((f.at = 0 /\ f.pc = 0) \/ f.at = f.pc + 1)
+
+\* entry of MidiFile._load / _save: with meta_charset(self.charset).
+\* A nested call begins while the outer call is between two events (and
+\* has processed at least its header).
 Begin ==
-  /\ saved = <<>> /\ Len(hist) < MaxCalls
+  /\ Depth < MaxDepth /\ ncalls < MaxCalls
+  /\ (Depth > 0 => ~Failing(Top))
   /\ \E kind \in {"load", "save"}, cs \in Charsets :
        \E fault \in (IF kind = "load" THEN LoadFaults ELSE SaveFaults) \cup {"none"} :
          \E at \in 0..NItems :
            /\ (fault = "none" => at = 0)
            /\ (fault = "unknown_charset" => at = 1)      \* strikes at the first text event
-           /\ call' = [kind |-> kind, cs |-> cs, fault |-> fault, at |-> at]
-           /\ saved' = <<charset>>
+           /\ stack' = Append(stack, Frame(kind, cs, fault, at, charset))
            /\ charset' = IF fault = "unknown_charset" THEN "no-such-charset" ELSE cs
-           /\ pc' = 0
-  /\ UNCHANGED hist
+           /\ hist' = Append(hist, <<"begin", kind, cs, fault, at>>)
+  /\ ncalls' = ncalls + 1
 
 \* one event is read / written with the charset in force
 Item ==
-  /\ saved # <<>> /\ pc < NItems
-  /\ ~(call.fault # "none" /\ call.at = pc + 1)
-  /\ ~(call.fault # "none" /\ call.at = 0)
-  /\ pc' = pc + 1
-  /\ UNCHANGED <<charset, saved, call, hist>>
+  /\ Depth > 0 /\ Top.pc < NItems /\ ~Failing(Top)
+  /\ stack' = [stack EXCEPT ![Depth].pc = @ + 1]
+  /\ hist' = Append(hist, <<"item", "", "", "", 0>>)
+  /\ UNCHANGED <<charset, ncalls>>
 
-\* the call raises while processing event call.at (0: in the header)
+\* the call raises while processing event Top.at (0: in the header)
 Fail ==
-  /\ saved # <<>> /\ call.fault # "none"
-  /\ (call.at = 0 /\ pc = 0) \/ call.at = pc + 1
-  /\ charset' = IF Scoped THEN saved[1] ELSE charset          \* finally: restore
-  /\ saved' = <<>>
-  /\ hist' = Append(hist, [call EXCEPT !.fault = call.fault] @@ [raised |-> TRUE, after |-> charset'])
-  /\ pc' = 0 /\ call' = NoCall
+  /\ Depth > 0 /\ Failing(Top)
+  /\ charset' = IF Scoped THEN Top.saved ELSE charset          \* finally: restore
+  /\ stack' = Pop
+  /\ hist' = Append(hist, <<"raise", "", "", "", 0>>)
+  /\ UNCHANGED ncalls
 
 End ==
-  /\ saved # <<>> /\ pc = NItems /\ call.fault = "none"
-  /\ charset' = saved[1] /\ saved' = <<>>
-  /\ hist' = Append(hist, call @@ [raised |-> FALSE, after |-> charset'])
-  /\ pc' = 0 /\ call' = NoCall
+  /\ Depth > 0 /\ Top.pc = NItems /\ Top.fault = "none"
+  /\ charset' = Top.saved /\ stack' = Pop
+  /\ hist' = Append(hist, <<"end", "", "", "", 0>>)
+  /\ UNCHANGED ncalls
 
 Next == Begin \/ Item \/ Fail \/ End
 Spec == Init /\ [][Next]_vars
 
-\* outside a call the default is in force again, whatever happened inside
-ScopedCharset == saved = <<>> => charset = "latin1"
-\* inside the call the file's charset is in force
-InForceDuringCall == (saved # <<>> /\ call.fault # "unknown_charset") => charset = call.cs
+\* outside every call the default is in force again, whatever happened inside
+ScopedCharset == stack = <<>> => charset = "latin1"
+\* inside a call - also after a nested call has come and gone - that file's charset is in force
+InForceDuringCall == (stack # <<>> /\ Top.fault # "unknown_charset") => charset = Top.cs
+\* every frame remembers what the call below it (or the default) had set
+SavedChain == \A i \in DOMAIN stack :
+                 stack[i].saved = IF i = 1 THEN "latin1"
+                                  ELSE IF stack[i-1].fault = "unknown_charset" THEN "no-such-charset"
+                                  ELSE stack[i-1].cs
 
-Emit == (saved = <<>> /\ Len(hist) = MaxCalls) =>
-          PrintT(ToString(<<"EMIT", [i \in DOMAIN hist |->
-               <<hist[i].kind, hist[i].cs, hist[i].fault, hist[i].at>>]>>))
+Emit == (stack = <<>> /\ ncalls = MaxCalls) => PrintT(ToString(<<"EMIT", hist>>))
 =============================================================================
